@@ -1,7 +1,7 @@
 """Hypothesis strategies producing SIM cases (plain JSON-able dicts), parameterised by a profile."""
 from hypothesis import strategies as st
 
-CAUSES = [-9, -11, -15, 1, 3, 0, 255]
+CAUSES = [-9, -11, -15, 1, 3, 0, 255, -37, -6]      # incl. a real-time signal without a name in signal.Signals
 EXCS = [("ValueError", ["v"]), ("KeyError", ["k"]), ("SystemExit", [2]), ("KeyboardInterrupt", []),
         ("CustomErr", ["c", 1]), ("ZeroDivisionError", ["z"]), ("BaseException", ["b"])]
 
